@@ -4,6 +4,7 @@ import (
 	"fmt"
 	"math/rand"
 	"runtime"
+	"strings"
 	"sync"
 	"time"
 
@@ -26,6 +27,7 @@ func init() {
 }
 
 type closeCall struct {
+	group  int // > 0: member of a group of concurrent Close calls on one target
 	scope  int // 0 = provider
 	call   int64
 	ret    int64
@@ -138,8 +140,10 @@ func closePlan(c *eng.Ctx, r *core.Run, rng *rand.Rand, failing map[[3]int]bool,
 	}
 	var mu sync.Mutex
 	var calls []*closeCall
+	groupNo := 0
+	curGroup := 0
 	doClose := func(scope int) *closeCall {
-		cc := &closeCall{scope: scope}
+		cc := &closeCall{scope: scope, group: curGroup}
 		var res core.OpResult
 		if scope == 0 {
 			res = r.Do(core.Op{Kind: core.OpCloseProvider})
@@ -166,6 +170,18 @@ func closePlan(c *eng.Ctx, r *core.Run, rng *rand.Rand, failing map[[3]int]bool,
 	rng.Shuffle(len(order), func(i, j int) { order[i], order[j] = order[j], order[i] })
 	order = append(order, 0)
 	cancelRaced := map[int]bool{}
+	// graceful-shutdown shape: cancel the caller contexts of some scopes and close the provider
+	// right away (the watchers are still disposing when provider.Close runs)
+	if concurrent && rng.Intn(3) == 0 {
+		for sc := 1; sc < len(r.Scopes); sc++ {
+			if h := r.Scopes[sc]; h.Cancel != nil && rng.Intn(2) == 0 {
+				h.Cancel()
+				cancelRaced[sc] = true
+			}
+		}
+		order = []int{0}
+		c.R.Count("cancel_then_provider_close_plans", 1)
+	}
 	for _, sc := range order {
 		if !concurrent {
 			doClose(sc)
@@ -175,6 +191,8 @@ func closePlan(c *eng.Ctx, r *core.Run, rng *rand.Rand, failing map[[3]int]bool,
 		g := 2 + rng.Intn(7)
 		start := make(chan struct{})
 		var wg sync.WaitGroup
+		groupNo++
+		curGroup = groupNo
 		for i := 0; i < g; i++ {
 			wg.Add(1)
 			go func() { defer wg.Done(); <-start; doClose(sc) }()
@@ -198,6 +216,7 @@ func closePlan(c *eng.Ctx, r *core.Run, rng *rand.Rand, failing map[[3]int]bool,
 			c.R.Abandon(-2)
 		}
 		c.R.Count("concurrent_close_groups", 1)
+		curGroup = 0
 		doClose(sc) // afterwards: nil, nothing closed
 	}
 	o := core.Digest(r)
@@ -211,6 +230,48 @@ func closePlan(c *eng.Ctx, r *core.Run, rng *rand.Rand, failing map[[3]int]bool,
 		n := len(o.Closes[x.ID])
 		if n != 1 {
 			fs = append(fs, core.Finding{Clause: "close-count-under-errors", Sig: fmt.Sprintf("%s:closed-%d-times:concurrent=%v", m.Features(x.Reg), min(n, 2), concurrent), Detail: fmt.Sprintf("%s of %s was closed %d times (failing closes: %d of %d owned instances)", o.InstName(x.ID), m.Describe(x.Reg), n, len(failing), len(owned))})
+		}
+	}
+	// (1b) Close is complete when it returns: every instance owned by the closed subtree has its
+	// close event before the return of ANY Close call on that scope / an ancestor / the provider
+	// (a caller that finds the scope already being closed waits for that Close to finish)
+	subtreeOf := func(target int, owner int) bool {
+		if target == 0 {
+			return true // provider: everything
+		}
+		if owner < 0 {
+			return false // singletons belong to the provider only
+		}
+		return r.AncestorOrSelf(target, owner) && target != 0
+	}
+	// of a group of concurrent calls only the one that returns last is held to this (the others
+	// may be the callers that found the provider already closing; whether THEY wait is not stated)
+	lastOfGroup := map[int]int64{}
+	for _, cc := range calls {
+		if cc.group > 0 && cc.ret > lastOfGroup[cc.group] {
+			lastOfGroup[cc.group] = cc.ret
+		}
+	}
+	for i, cc := range calls {
+		if cc.ret == 0 || cc.class == "skipped" || strings.HasPrefix(cc.class, "PANIC") {
+			continue
+		}
+		if cc.group > 0 && cc.ret != lastOfGroup[cc.group] {
+			continue
+		}
+		for _, x := range owned {
+			if !subtreeOf(cc.scope, x.Owner) {
+				continue
+			}
+			cls := o.Closes[x.ID]
+			if len(cls) == 0 || cls[0].Seq > cc.ret {
+				when := "never"
+				if len(cls) > 0 {
+					when = fmt.Sprintf("at seq %d", cls[0].Seq)
+				}
+				fs = append(fs, core.Finding{Clause: "close-returned-before-complete", Sig: ownerKind(cc.scope) + fmt.Sprintf(":concurrent=%v", concurrent), Detail: fmt.Sprintf("close call %d on %s returned at seq %d, but %s of %s (owned by that subtree) was closed %s", i, scopeName(cc.scope), cc.ret, o.InstName(x.ID), m.Describe(x.Reg), when)})
+				break
+			}
 		}
 	}
 	// (2) per Close call: which instances did it dispose (close events inside its call/return window on any goroutine
@@ -279,7 +340,7 @@ func closePlan(c *eng.Ctx, r *core.Run, rng *rand.Rand, failing map[[3]int]bool,
 			if nonNil > 1 {
 				fs = append(fs, core.Finding{Clause: "two-closes-report-errors", Sig: ownerKind(sc), Detail: fmt.Sprintf("%d of %d concurrent Close calls on %s returned an error; only the one that disposed may", nonNil, len(ccs)-1, scopeName(sc))})
 			}
-			if nFail > 0 && nonNil == 0 && !cancelRaced[sc] && !ancestorCancelRaced(r, sc, cancelRaced) {
+			if nFail > 0 && nonNil == 0 && !cancelRaced[sc] && !ancestorCancelRaced(r, sc, cancelRaced) && !subtreeCancelRaced(r, sc, cancelRaced) {
 				fs = append(fs, core.Finding{Clause: "disposal-error-lost", Sig: ownerKind(sc) + ":concurrent", Detail: fmt.Sprintf("%d concurrent Close calls on %s disposed %d instances of which %d failed, but every call returned nil (no context cancellation was racing)", len(ccs)-1, scopeName(sc), nClosed, nFail)})
 			}
 			if nFail == 0 && nonNil > 0 {
@@ -294,6 +355,17 @@ func closePlan(c *eng.Ctx, r *core.Run, rng *rand.Rand, failing map[[3]int]bool,
 func ancestorCancelRaced(r *core.Run, sc int, raced map[int]bool) bool {
 	for s := sc; s > 0; s = r.Scopes[s].Parent {
 		if raced[s] {
+			return true
+		}
+	}
+	return false
+}
+
+// subtreeCancelRaced: a cancelled scope inside the subtree may have been disposed by its watcher,
+// which drops the disposal error by design.
+func subtreeCancelRaced(r *core.Run, sc int, raced map[int]bool) bool {
+	for x := range raced {
+		if sc == 0 || r.AncestorOrSelf(sc, x) {
 			return true
 		}
 	}
